@@ -29,11 +29,12 @@ import (
 var checkFlag = flag.String("check", "c03", "c03 | c04 | c05")
 
 type scenario struct {
-	Name  string `json:"name"`
-	Proto string `json:"proto"`
-	N     int    `json:"n"`
-	T     int    `json:"t"`
-	Cost  int    `json:"cost"` // rough cost class: 0 = milliseconds, 1 = tens of ms, 2 = seconds
+	Name      string `json:"name"`
+	Proto     string `json:"proto"`
+	N         int    `json:"n"`
+	T         int    `json:"t"`
+	Cost      int    `json:"cost"`                 // rough cost class: 0 = milliseconds, 1 = tens of ms, 2 = seconds
+	StateOnly bool   `json:"state_only,omitempty"` // only the state-level deviations (C04)
 }
 
 // world is a scenario made concrete: the session description plus what the oracles need.
@@ -195,11 +196,17 @@ func scenarios(check string) []scenario {
 	add("doerner-keygen", 2, 1, 1)
 	add("doerner-sign", 2, 1, 1)
 	add("cmp-presign-online", 2, 1, 1)
-	add("cmp-sign", 2, 1, 2)
 	if check == "C04" {
-		add("cmp-presign", 3, 1, 2) // n=3: relayed abort notices exist; state-level deviations of a presigner
+		// state-level deviations of a presigner (its gamma / k / x / chi / delta shares shifted while its proofs stay valid)
+		l = append(l, scenario{Name: "cmp-presign/n2/t1/state-level", Proto: "cmp-presign", N: 2, T: 1, Cost: 2, StateOnly: true})
 	}
+	add("cmp-sign", 2, 1, 2)
 	if vkit.Thorough() {
+		if check == "C04" {
+			add("cmp-presign", 3, 1, 2) // n=3: relayed abort notices exist
+			l = append(l, scenario{Name: "cmp-presign-full/n3/t1/state-level", Proto: "cmp-presign-full", N: 3, T: 1, Cost: 2, StateOnly: true})
+			l = append(l, scenario{Name: "cmp-presign-online/n3/t1/state-level", Proto: "cmp-presign-online", N: 3, T: 1, Cost: 2, StateOnly: true})
+		}
 		add("cmp-presign", 2, 1, 2)
 		add("cmp-keygen", 2, 1, 2)
 		add("cmp-refresh", 2, 1, 2)
